@@ -27,7 +27,7 @@ Proof. exact run_line_prompt. Qed.
 (* a compile error is reported, executes nothing and leaves the REPL idle: the session stays
    usable *)
 Theorem C20_error_recovers : forall classify prev l,
-  classify (prev ++ [l]) = CompileError -> (prev <> [] \/ is_blank l = false) ->
+  classify (prev ++ [l]) = CompileError -> (prev <> [] \/ ignorable l = false) ->
   (prev = [] \/ is_blank l = true) ->
   run_line classify {| continuation := negb (match prev with [] => true | _ => false end); previous := prev |} l
   = (idle, [Prompt false; Report (prev ++ [l])]).
@@ -39,9 +39,9 @@ Proof.
 Qed.
 
 Example C20_nonvacuous :
-  let classify := fun t => match t with [1] => Complete | [2] => Incomplete | [2; 3; 0] => Complete | _ => CompileError end in
-  feed classify idle (flat_map typed [[1]; [2; 3]; [1]]) =
-  (idle, [Prompt false; Exec [1]; Prompt true; Prompt false; Exec [2; 3; 0]; Prompt false; Exec [1]]).
+  let classify := fun t => match t with [2] => Complete | [3] => Incomplete | [3; 1; 4; 0] => Complete | _ => CompileError end in
+  feed classify idle (flat_map typed [[2]; [3; 1; 4]; [2]] ++ [white; blank]) =
+  (idle, [Prompt false; Exec [2]; Prompt true; Prompt false; Exec [3; 1; 4; 0]; Prompt false; Exec [2]]).
 Proof. vm_compute. reflexivity. Qed.
 
 Print Assumptions C20_equiv.
